@@ -1,7 +1,7 @@
 SPECIFICATION Spec
 CONSTANTS
   MaxGrow = 2
-  SeedIds <- CoreSeeds
+  SeedIds <- GrowSeeds
   GrowT <- FewT
   GrowNames <- NamesAP
   DeclNames <- DNamesQ
